@@ -295,34 +295,34 @@ Proof.
   pose proof (dropline_len s NE). pose proof (dropws_len (dropline s)). apply IH; lia.
 Qed.
 
-(* layout: whitespace characters and comments that end with their newline *)
+(* layout: whitespace characters and comments that end with their newline (the lexer also ends a comment at a NUL character) *)
 Inductive gap : list N -> Prop :=
 | gap_nil : gap []
 | gap_ws c g : is_ws c = true -> gap g -> gap (c :: g)
-| gap_hash body g : Forall (fun c => c <> 10%N /\ c <> 0%N) body -> gap g -> gap (35%N :: body ++ 10%N :: g)
-| gap_slash body g : Forall (fun c => c <> 10%N /\ c <> 0%N) body -> gap g -> gap (47%N :: 47%N :: body ++ 10%N :: g).
+| gap_hash body t g : Forall (fun c => c <> 10%N /\ c <> 0%N) body -> t = 10%N \/ t = 0%N -> gap g -> gap (35%N :: body ++ t :: g)
+| gap_slash body t g : Forall (fun c => c <> 10%N /\ c <> 0%N) body -> t = 10%N \/ t = 0%N -> gap g -> gap (47%N :: 47%N :: body ++ t :: g).
 
-Lemma dropline_body body r : Forall (fun c => c <> 10%N /\ c <> 0%N) body -> dropline (body ++ 10%N :: r) = r.
+Lemma dropline_body body t r : Forall (fun c => c <> 10%N /\ c <> 0%N) body -> t = 10%N \/ t = 0%N -> dropline (body ++ t :: r) = r.
 Proof.
-  induction 1 as [|c b [H1 H2] _ IH]; cbn; [reflexivity|]. apply N.eqb_neq in H1, H2. rewrite H1, H2. cbn. exact IH.
+  intros H T. induction H as [|c b [H1 H2] _ IH]; cbn; [destruct T; subst; reflexivity|]. apply N.eqb_neq in H1, H2. rewrite H1, H2. cbn. exact IH.
 Qed.
 Lemma skipped_dropws s : skipped (dropws s) = skipped s.
 Proof. unfold skipped. assert (E : dropws (dropws s) = dropws s). { induction s as [|c r IH]; cbn; [reflexivity|]. destruct (is_ws c) eqn:W; [exact IH|]. cbn. now rewrite W. } now rewrite E. Qed.
 
 Theorem gap_skipped g : gap g -> forall r, skipped (g ++ r) = skipped r.
 Proof.
-  induction 1 as [|c g W _ IH|body g HB _ IH|body g HB _ IH]; intros r.
+  induction 1 as [|c g W _ IH|body t g HB HT _ IH|body t g HB HT _ IH]; intros r.
   - reflexivity.
   - rewrite <- (IH r). unfold skipped. cbn [app dropws]. rewrite W. reflexivity.
   - rewrite <- (IH r). unfold skipped at 1. cbn [app dropws]. change (is_ws 35) with false. cbn iota.
-    cbn [dropcom]. change (atc (35%N :: (body ++ 10%N :: g) ++ r)) with true. cbn iota.
-    cbn [dropline]. change (negb (35 =? 10)%N && negb (35 =? 0)%N) with true. cbn iota. rewrite <- app_assoc. cbn [app]. rewrite (dropline_body body (g ++ r) HB).
+    cbn [dropcom]. change (atc (35%N :: (body ++ t :: g) ++ r)) with true. cbn iota.
+    cbn [dropline]. change (negb (35 =? 10)%N && negb (35 =? 0)%N) with true. cbn iota. rewrite <- app_assoc. cbn [app]. rewrite (dropline_body body t (g ++ r) HB HT).
     unfold skipped. apply dropcom_enough.
     + pose proof (dropws_len (g ++ r)) as HL. cbn [List.length]. rewrite (app_length body). cbn [List.length]. lia.
     + lia.
   - rewrite <- (IH r). unfold skipped at 1. cbn [app dropws]. change (is_ws 47) with false. cbn iota.
-    cbn [dropcom]. change (atc (47%N :: 47%N :: (body ++ 10%N :: g) ++ r)) with true. cbn iota.
-    cbn [dropline]. change (negb (47 =? 10)%N && negb (47 =? 0)%N) with true. cbn iota. rewrite <- app_assoc. cbn [app]. rewrite (dropline_body body (g ++ r) HB).
+    cbn [dropcom]. change (atc (47%N :: 47%N :: (body ++ t :: g) ++ r)) with true. cbn iota.
+    cbn [dropline]. change (negb (47 =? 10)%N && negb (47 =? 0)%N) with true. cbn iota. rewrite <- app_assoc. cbn [app]. rewrite (dropline_body body t (g ++ r) HB HT).
     unfold skipped. apply dropcom_enough.
     + pose proof (dropws_len (g ++ r)) as HL. cbn [List.length]. rewrite (app_length body). cbn [List.length]. lia.
     + lia.
@@ -470,7 +470,7 @@ Theorem lex_leading_layout g s : gap g -> map shape (lex (g ++ s)) = map shape (
 Proof.
   intros G. unfold Lexer.lex.
   rewrite (lex_all_leq (S (S (List.length (g ++ s)))) (init (g ++ s)) (init s)).
-  - f_equal. apply lex_all_enough; unfold len, init; cbn [chs]; rewrite ?app_length; lia.
+  - apply (f_equal (map shape)). apply lex_all_enough; unfold len, init; cbn [chs]; rewrite ?app_length; lia.
   - apply (gap_leq g); [exact G|]. reflexivity.
 Qed.
 
